@@ -104,11 +104,33 @@ func run(r *hlib.Run, ts []tun, reg []string, regErr bool, fresh []string) {
 	if calls > 0 && calls < needy {
 		r.Count("branch:reuse-then-request")
 	}
+	// failing requests among the calls actually made (a call beyond the script fails too)
+	firstFail, failed := -1, 0
+	for i := 0; i < calls; i++ {
+		if i >= len(fresh) || fresh[i] == "" {
+			if firstFail < 0 {
+				firstFail = i
+			}
+			failed++
+		}
+	}
+	r.Count("failed-requests:" + strconv.Itoa(min(failed, 3)))
+	if failed > 0 && !regErr {
+		if firstFail > 0 || calls < needy {
+			// an earlier tunnel of the same pass already got a name (reused or generated)
+			r.Count("branch:named-then-request-failed")
+		} else {
+			r.Count("branch:first-request-failed")
+		}
+		if firstFail+failed < calls {
+			r.Count("branch:request-failed-then-succeeded")
+		}
+	}
 }
 
 func main() {
 	r := hlib.Start()
-	r.Rule = "case = (tunnel list, registered hostnames | error, GenerateHostname script); non-trivial = at least one tunnel needs a name and the registered list is known; tunnels 0..7 with/without target and hostname, configured duplicates, dotted custom names; registered sets overlapping configured names, dotted, occasionally duplicated; scripts mostly new names, occasionally failing / colliding (outside the quantifier: only the unconditional clauses are judged)"
+	r.Rule = "case = (tunnel list, registered hostnames | error, GenerateHostname script); non-trivial = at least one tunnel needs a name and the registered list is known; tunnels 0..7 with/without target and hostname, configured duplicates, dotted custom names; registered sets overlapping configured names, dotted, occasionally duplicated; scripts mostly new names; failing requests (single, early, fail-from-k, flaky, script too short) are inside the quantifier: distinctness and 'unnamed only after a failed request' are judged on them; colliding generated names / duplicated registered lists are outside (only the unconditional clauses are judged)"
 	rng := hlib.NewRng(r.Seed)
 	dir, err := os.MkdirTemp(".", "c43cfg")
 	if err != nil {
@@ -208,16 +230,31 @@ func main() {
 		for i := range fresh {
 			fresh[i] = "gen" + strconv.Itoa(i)
 		}
-		switch rng.Intn(12) {
+		switch rng.Intn(14) {
 		case 0:
-			fresh[rng.Intn(len(fresh))] = "" // failing call
+			fresh[rng.Intn(len(fresh))] = "" // one failing call, anywhere in the script
 			r.Count("fresh:failure")
 		case 1:
 			fresh[rng.Intn(len(fresh))] = hlib.Pick(rng, auto) // collides (outside the quantifier)
 			r.Count("fresh:collision")
 		case 2:
-			fresh = fresh[:rng.Intn(len(fresh))] // script too short
+			fresh = fresh[:rng.Intn(len(fresh))] // script too short: every later call fails
 			r.Count("fresh:short")
+		case 3:
+			fresh[rng.Intn(min(3, len(fresh)))] = "" // one failing call among the first requests
+			r.Count("fresh:early-failure")
+		case 4:
+			for k := rng.Intn(min(4, len(fresh))); k < len(fresh); k++ { // the service goes away after k answers
+				fresh[k] = ""
+			}
+			r.Count("fresh:fail-from")
+		case 5:
+			for k := range fresh { // flaky service: each call fails independently
+				if rng.Chance(40) {
+					fresh[k] = ""
+				}
+			}
+			r.Count("fresh:flaky")
 		}
 		run(r, ts, reg, regErr, fresh)
 	}
@@ -229,6 +266,11 @@ func main() {
 	run(r, []tun{{"tcp://a:1", ""}, {"", "h1"}}, []string{"h1", "a.b"}, false, []string{"gen0"})
 	run(r, []tun{{"tcp://a:1", "x"}, {"tcp://b:1", "x"}}, []string{"x"}, false, nil)
 	run(r, []tun{{"tcp://a:1", ""}}, nil, true, []string{"gen0"})
+	// failing requests: first request, after a reuse, after a generated name, between two successes
+	run(r, []tun{{"tcp://a:1", ""}, {"tcp://b:1", ""}}, nil, false, []string{"", "gen1"})
+	run(r, []tun{{"tcp://a:1", ""}, {"tcp://b:1", ""}, {"tcp://c:1", "h2"}}, []string{"h1", "h2"}, false, []string{""})
+	run(r, []tun{{"tcp://a:1", ""}, {"tcp://b:1", ""}, {"tcp://c:1", ""}}, nil, false, []string{"gen0"})
+	run(r, []tun{{"tcp://a:1", ""}, {"", ""}, {"tcp://b:1", ""}, {"tcp://c:1", ""}}, []string{"h1"}, false, []string{"gen0", "", "gen2"})
 	n := 8_000
 	if r.Thorough() {
 		n = 150_000
